@@ -308,6 +308,11 @@ class FD:
             seen += 1
         if b is None:
             return _MISSING
+        if b.kind == 'importfrom' and (b.target, b.attr) in _PURE_STDLIB:
+            f = _PURE_STDLIB[(b.target, b.attr)]
+            v = f if getattr(f, '_fd_callable', False) else _pure(f, '%s.%s' % (b.target, b.attr))
+            self._modcache[key] = v
+            return v
         if b.kind == 'importfrom' and b.target == 'operator' and b.attr:
             import operator as _op
             f = getattr(_op, b.attr, None)
@@ -1775,7 +1780,33 @@ def _pure(f, name):
     return call
 
 
-_PURE_STDLIB = {('ast', 'literal_eval'): ast.literal_eval, ('math', 'isnan'): __import__('math').isnan,
+def _lru_cache_model(*dargs, **dkw):
+    """functools.lru_cache / functools.cache: the wrapped callable is called once per distinct argument tuple, later
+    calls get the remembered result (the very same object)."""
+    def wrap(f):
+        memo = {}
+
+        def cached(*a, **k):
+            try:
+                key = (a, tuple(sorted(k.items())))
+                hash(key)
+            except TypeError:
+                raise Raised('TypeError', 'unhashable argument of a cached function')
+            if key not in memo:
+                memo[key] = f(*a, **k)
+            return memo[key]
+        cached._fd_callable = True
+        cached.cache_clear = memo.clear
+        return cached
+    if len(dargs) == 1 and callable(dargs[0]) and not dkw and not isinstance(dargs[0], (int, type(None))):
+        return wrap(dargs[0])
+    wrap._fd_callable = True
+    return wrap
+
+
+_lru_cache_model._fd_callable = True
+_PURE_STDLIB = {('functools', 'lru_cache'): _lru_cache_model, ('functools', 'cache'): _lru_cache_model,
+                ('ast', 'literal_eval'): ast.literal_eval, ('math', 'isnan'): __import__('math').isnan,
                 ('math', 'isinf'): __import__('math').isinf, ('math', 'isfinite'): __import__('math').isfinite,
                 ('itertools', 'zip_longest'): lambda *a, **k: list(__import__('itertools').zip_longest(*a, **k))}
 
@@ -1787,6 +1818,7 @@ _PURE_DOTTED = {'textwrap.dedent': __import__('textwrap').dedent, 'textwrap.inde
                 'string.capwords': __import__('string').capwords, 'unicodedata.normalize': __import__('unicodedata').normalize,
                 # read-only queries of interpreter state: a representative value (nothing in pedal's logic may depend
                 # on which)
+                'functools.lru_cache': _lru_cache_model, 'functools.cache': _lru_cache_model,
                 're.compile': __import__('re').compile, 're.escape': __import__('re').escape,
                 're.match': __import__('re').match, 're.search': __import__('re').search,
                 're.fullmatch': __import__('re').fullmatch, 're.sub': __import__('re').sub,
